@@ -105,6 +105,22 @@ pub fn run(ctx: &Ctx) -> i32 {
             }
         });
     }
+    // 2b. length sweep: a run of k characters of one class followed by one character whose UTF-8
+    //     encoding ends in a boundary byte (0x80, 0xBF, ...) - the end-of-data rules see the last bytes
+    let finals: Vec<char> = vec!['\u{80}', 'π', '\u{3000}', '€', 'é', '😀', '\u{7FF}', '\u{FFFF}', 'ÿ', '\u{100}', 'A', '1'];
+    let runs: Vec<&str> = vec!["a", "A", "1", "a ", "aA1*"];
+    ctx.par((runs.len() * 131) as u64, |c, w| {
+        let r = runs[c as usize / 131];
+        let k = c as usize % 131;
+        w.label(|| format!("length sweep run {:?} x {}", r, k));
+        for f in &finals {
+            let mut s: String = r.chars().cycle().take(k).collect();
+            s.push(*f);
+            w.check(s.len() as u64, || sdesc(&s), |st| eval_str(&s, st));
+            let m = format!("[)>\u{1E}05\u{1D}{}\u{1E}\u{04}", s);
+            w.check(m.len() as u64, || sdesc(&m), |st| eval_str(&m, st));
+        }
+    });
     // 3. strings of length 2..3 around the Latin-1 boundaries
     let edge: Vec<char> = [0x1Fu32, 0x20, 0x7E, 0x7F, 0x9F, 0xA0, 0xFF, 0x100].iter().map(|u| char::from_u32(*u).unwrap()).collect();
     ctx.seq(|w| {
@@ -149,7 +165,7 @@ pub fn run(ctx: &Ctx) -> i32 {
         "evaluations": ctx.evaluations(),
         "distinct_nontrivial": ctx.counter("nontrivial"),
         "rule": format!("every Unicode scalar value (1,112,064) as a one-character string through encode_str -> data_codewords -> decode_str, and through utf8_to_latin1; all strings over a 12-character class alphabet \
-(ASCII letters/digit, RS, EOT, e-acute, U+0080, euro, emoji, ~, NBSP, DEL) of length <= {} and over 24 characters of length <= {}, each (up to length 3) also inside the macro 05/06 envelope (length <= 3); all strings of length 2..3 over the Latin-1 boundary characters; \
+(ASCII letters/digit, RS, EOT, e-acute, U+0080, euro, emoji, ~, NBSP, DEL) of length <= {} and over 24 characters of length <= {}, each (up to length 3) also inside the macro 05/06 envelope (length <= 3); a length sweep (runs of 0..130 characters of five classes followed by one of 12 final characters, plain and inside the macro 05 envelope); all strings of length 2..3 over the Latin-1 boundary characters; \
 latin1_to_utf8 on all 256 bytes and 65,536 pairs against ISO 8859-1 by rule, utf8_to_latin1 as its inverse. Oracle: round trip; printable Latin-1 => no ECI and Latin-1 bytes (reference decoder R5); otherwise exactly one UTF-8 designator (241 27) first (after a macro codeword) and UTF-8 payload. \
 All cases distinct; non-trivial = UTF-8/ECI path taken or helper defined.", ctx.tier.pick(5, 6), ctx.tier.pick(3, 4)),
         "exhaustive": true,
